@@ -58,6 +58,12 @@ example : resetsFlagOnFailure
 example : processUserInputOk
     [.matchEv "UtteranceUserActionFinished", .setVar "user_message" "$event[\"final_transcript\"]", .ifE "$config.rails.input.flows" 3,
      .createEvent "UserMessage" "text=$user_message", .callFlow "run input rails"] = false := by decide
+/-- a `_user_said` that takes the transcript only in the `else` branch (so a literal / regex pattern
+    stays in `$text` and is what the rails are shown) is rejected. -/
+example : userSaidOk
+    [⟨0, .matchSpec "StartFlow"⟩, ⟨0, .globalVar "$user_message"⟩, ⟨0, .ifE "$text"⟩, ⟨1, .matchSpec "UtteranceUserAction"⟩, ⟨0, .elseE⟩,
+     ⟨1, .matchSpec "UtteranceUserAction"⟩, ⟨1, .assign "text" "$event.final_transcript"⟩, ⟨0, .assign "user_message" "$text"⟩,
+     ⟨0, .await "run input rails" "$0=$user_message" ""⟩] = false := by decide
 /-- a rail loop that increments twice is rejected. -/
 example : railLoopOk "input_flows" "$config.rails.input.flows"
     [.setVar "i" "0", .setVar "input_flows" "$config.rails.input.flows", .whileE "$i < len($input_flows)", .callFlow "$input_flows[$i]",
